@@ -1,5 +1,5 @@
 // C08 harness: feeds IPv4 packets (built as raw bytes, parsed by libtins) to IPv4Reassembler.
-//   pkt <id> <src> <dst> <proto> <ttl> <tos> <df> <mf> <off13> x<payload>
+//   pkt <id> <src> <dst> <proto> <ttl> <tos> <df> <mf> <off13> x<payload> [<trailer octets behind the IP total length>]
 //     -> "0" not fragmented (and the packet must be untouched: "0" is followed by nothing else;
 //            if the packet changed, " CHANGED" is appended)
 //        "1" fragmented
@@ -22,7 +22,7 @@ static void run(const Script& s) {
     IPv4Reassembler re;
     for (const std::string& line : s.lines) {
         std::vector<std::string> t = split(line);
-        if (t.size() != 11 || t[0] != "pkt") { printf("-3\n"); continue; }
+        if ((t.size() != 11 && t.size() != 12) || t[0] != "pkt") { printf("-3\n"); continue; }
         uint16_t id = (uint16_t)num(t[1]);
         uint32_t src = (uint32_t)num(t[2]), dst = (uint32_t)num(t[3]);
         uint8_t proto = (uint8_t)num(t[4]), ttl = (uint8_t)num(t[5]), tos = (uint8_t)num(t[6]);
@@ -37,6 +37,8 @@ static void run(const Script& s) {
         for (int i = 0; i < 4; ++i) { h[12 + i] = (src >> (24 - 8 * i)) & 0xff; h[16 + i] = (dst >> (24 - 8 * i)) & 0xff; }
         uint16_t c = csum(h); h[10] = c >> 8; h[11] = c & 0xff;
         bytes pkt = h; pkt.insert(pkt.end(), pl.begin(), pl.end());
+        // optional 12th token: octets behind the IP total length (link-layer padding / trailer of the captured frame)
+        if (t.size() == 12) pkt.insert(pkt.end(), (size_t)num(t[11]), (uint8_t)0xee);
         try {
             EthernetII eth = EthernetII() / IP(pkt.data(), (uint32_t)pkt.size());
             PDU::serialization_type before = eth.serialize();
